@@ -573,11 +573,25 @@ impl<'a> Exec<'a> {
         }
     }
 
+    /// native bytes of a freshly produced item; a failure here is a library
+    /// panic inside serialize() and is recorded as such
+    fn enc_native(&mut self, item: &Item) -> Vec<u8> {
+        match self.s.encode(item, Codec::Native) {
+            Ok(b) => b,
+            Err(f) => {
+                self.note_panic(&f);
+                vec![]
+            }
+        }
+    }
+
     fn put(&mut self, id: Id, item: Item, meta: Option<Meta>) -> Vec<u8> {
-        let native = self
-            .s
-            .encode(&item, Codec::Native)
-            .expect("harness: a freshly produced item must encode");
+        let native = self.enc_native(&item);
+        if native.is_empty() {
+            // the library could not even serialize what it just produced (a panic,
+            // already recorded): nothing is stored, consumers will be skipped
+            return native;
+        }
         if let Some(m) = meta {
             self.index.insert((key_kind(item.kind), native.clone()), m);
         }
@@ -753,7 +767,10 @@ impl<'a> Exec<'a> {
                     match probe.as_mut() {
                         Some(p) => match self.s.server_setup_new(p) {
                             Ok(direct) => {
-                                let nat = self.s.encode(&direct, Codec::Native).unwrap();
+                                let nat = self.enc_native(&direct);
+                                if nat.len() < lens.nh + lens.nsk {
+                                    return self.skip(i, op);
+                                }
                                 let mut sk = nat[lens.nh..lens.nh + lens.nsk].to_vec();
                                 if self.w.knobs.hsm_handle {
                                     for (i, x) in sk.iter_mut().enumerate() {
@@ -776,8 +793,8 @@ impl<'a> Exec<'a> {
                 let ev = match res {
                     Ok(item) => {
                         let pk = self.s.setup_public_key(&item).unwrap_or_default();
-                        let nat = self.s.encode(&item, Codec::Native).unwrap();
-                        let seed = nat[..lens.nh].to_vec();
+                        let nat = self.enc_native(&item);
+                        let seed = nat.get(..lens.nh).unwrap_or_default().to_vec();
                         let n = self.put(*out, item, Some(Meta::Setup { seed, pk: pk.clone() }));
                         Ok(vec![("setup", Hex(n)), ("pk", Hex(pk))])
                     }
@@ -809,8 +826,8 @@ impl<'a> Exec<'a> {
                 let ev = match res {
                     Ok(item) => {
                         let pk = self.s.setup_public_key(&item).unwrap_or_default();
-                        let nat = self.s.encode(&item, Codec::Native).unwrap();
-                        let seed = nat[..lens.nh].to_vec();
+                        let nat = self.enc_native(&item);
+                        let seed = nat.get(..lens.nh).unwrap_or_default().to_vec();
                         let n = self.put(*out, item, Some(Meta::Setup { seed, pk: pk.clone() }));
                         Ok(vec![("setup", Hex(n)), ("pk", Hex(pk))])
                     }
@@ -915,7 +932,7 @@ impl<'a> Exec<'a> {
                 let ev = match res {
                     Ok(o) => {
                         self.secrets.push(("export_key", o.export_key.clone()));
-                        let upb = self.s.encode(&o.upload, Codec::Native).unwrap();
+                        let upb = self.enc_native(&o.upload);
                         let meta = match (&stm, &rsm) {
                             (
                                 Some(Meta::ClientReg { pw_start, req_canon }),
@@ -941,7 +958,7 @@ impl<'a> Exec<'a> {
                                     server_pk_seen: pk.clone(),
                                     genuine: req_canon == rc2,
                                     export_key: o.export_key.clone(),
-                                    client_pk: upb[..lens.npk].to_vec(),
+                                    client_pk: upb.get(..lens.npk).unwrap_or_default().to_vec(),
                                     reg_op: i,
                                 })))
                             }
@@ -1037,7 +1054,7 @@ impl<'a> Exec<'a> {
                 self.check_predict(i, "LoginRespond", &p, &res);
                 let ev = match res {
                     Ok((state, m)) => {
-                        let mb = self.s.encode(&m, Codec::Native).unwrap();
+                        let mb = self.enc_native(&m);
                         let (mm, sm2) = match (&sm, &rq.canon) {
                             (Some(Meta::Setup { seed, pk }), Some(rc)) => {
                                 let idx = self.ssess.len();
